@@ -103,7 +103,15 @@ func (p *parked) goCall(label string, f func() error) {
 	}()
 }
 
+// shutdownErrs: further shutdown/cancellation errors contributed by the scenario files
+var shutdownErrs []func(error) bool
+
 func errClass(err error) string {
+	for _, f := range shutdownErrs {
+		if err != nil && f(err) {
+			return "shutdown"
+		}
+	}
 	switch {
 	case err == nil:
 		return "nil"
@@ -436,9 +444,10 @@ func Run(t *tr.W, thorough bool) {
 		scenBroadcaster(t, r, false)
 		scenScanner(t, r)
 		scenBatchWriter(t, r)
+		scenWorkMgr(t, r)
+		scenRescan(t, r)
 	}
 	// recorded finding F8, reproduced once per run (costs one deadline)
 	scenBroadcaster(t, r, true)
 	chainServiceScenarios(t, r)
-	t.Line("# skipped: query work manager with silent workers (needs query/export_verif.go, added by another package)")
 }
